@@ -227,35 +227,49 @@ def probe_scenarios(harness):
     return []
 
 
+MAX_PLAYBACKS = 4
+
+
 def concretise_and_replay(ctx, hr):
-    scns, notes = [], []
-    try:
-        tests, pmeta = kanirun.playback(hr.name, harness_timeout_s=600 if ctx.tier == 'quick' else 1800, tag='C19')
-        notes.append('playback %ss, %d tests' % (pmeta['wall_s'], len(tests)))
-        for t in tests:
-            if t['kind'] == 'cover':
-                continue
-            s = decode_playback(hr.name, t)
-            if s is None:
-                notes.append('playback values for "%s" do not match the harness layout: widths %s' % (t['check'], t['widths']))
-            else:
-                scns.append(s)
-    except Exception as e:   # noqa
-        notes.append('playback failed: %r' % (e,))
-    res = {'replayed': False, 'detail': 'no concrete values obtained from kani'}
-    for s in scns:
-        res = replay_both(s)
-        if res['replayed']:
-            break
+    """a failed Kani harness is only a candidate: obtain concrete inputs and reproduce on the real build.
+    1. deterministic boundary vectors of the harness' shape through the native build (milliseconds);
+    2. otherwise Kani's concrete playback (`-Z concrete-playback --concrete-playback=print`, 10-90 s per harness; at most
+       MAX_PLAYBACKS per run - a change in a macro body fails a dozen harnesses at once) supplies the solver's values."""
+    notes = []
+    res = {'replayed': False, 'detail': 'no concrete values obtained'}
+    for s in probe_scenarios(hr.name):
+        bad, _ = evaluate(s)
+        if bad:
+            s['source'] = 'deterministic boundary vector after kani failure of ' + hr.name
+            res = replay_both(s)
+            if res['replayed']:
+                notes.append('concretised by a boundary vector')
+                break
     if not res['replayed']:
-        for s in probe_scenarios(hr.name):
-            bad, _ = evaluate(s)
-            if bad:
-                s['source'] = 'deterministic boundary probe after kani failure of ' + hr.name
+        used = ctx.extra.get('kani_playbacks', 0)
+        if used >= MAX_PLAYBACKS:
+            notes.append('playback budget (%d per run) exhausted' % MAX_PLAYBACKS)
+        else:
+            ctx.extra['kani_playbacks'] = used + 1
+            scns = []
+            try:
+                tests, pmeta = kanirun.playback(hr.name, harness_timeout_s=600 if ctx.tier == 'quick' else 1800, tag='C19')
+                notes.append('kani playback %ss, %d tests' % (pmeta['wall_s'], len(tests)))
+                for t in tests:
+                    if t['kind'] == 'cover':
+                        continue
+                    s = decode_playback(hr.name, t)
+                    if s is None:
+                        notes.append('playback values for "%s" do not match the harness layout: widths %s' % (t['check'], t['widths']))
+                    else:
+                        scns.append(s)
+            except Exception as e:   # noqa
+                notes.append('playback failed: %r' % (e,))
+            for s in scns:
                 res = replay_both(s)
                 if res['replayed']:
                     break
-    res['detail'] = 'kani failed checks %s; %s; %s' % ([c['description'] for c in hr.failed[:3]], '; '.join(notes), res.get('detail'))
+    res['detail'] = 'kani failed checks %s; %s; %s' % (sorted({c['description'] for c in hr.failed})[:3], '; '.join(notes), res.get('detail'))
     return res
 
 
